@@ -214,7 +214,7 @@ pub fn oracle(c: &Case, probe: &mut Probe) -> Result<(), Fail> {
         return Ok(());
     }
     let built: Vec<Built> = c.ops.iter().map(build_op).collect::<Result<_, _>>()?;
-    let mut seen: std::collections::BTreeMap<(usize, u64), (String, (u64, u64))> = std::collections::BTreeMap::new();
+    let mut seen: std::collections::BTreeMap<(usize, u64), (String, crate::rngs::Fp)> = std::collections::BTreeMap::new();
     let mut consumed_any = false;
     for (step, (oi, seed)) in c.calls.iter().enumerate() {
         let i = usize::from(*oi) % c.ops.len();
@@ -249,7 +249,7 @@ pub fn oracle(c: &Case, probe: &mut Probe) -> Result<(), Fail> {
             );
         }
         seen.insert((i, *seed), (a.clone(), f1));
-        consumed_any |= f1.0 > 0;
+        consumed_any |= f1.words > 0;
         if c.other_thread && step == 0 {
             // a third run on another thread, after that thread's own generator has been used
             let r3 = std::thread::scope(|s| {
